@@ -101,6 +101,11 @@ def gen_world(rng):
         derived.append((k, e))
     envvars = [("V%d" % i, ("sym", [("name", r.choice(names_secret + names_plain + [d for d, _ in derived]))]))
                for i in range(1 + r.below(3))]
+    if r.chance(1, 2):
+        # several variables carrying the same value (each occurrence must be redacted)
+        envvars.append(("W0", r.choice(envvars)[1]))
+        if r.chance(1, 2):
+            envvars.append(("A0", r.choice(envvars)[1]))
     vals = vals + derived + [("environmentVariables", ("obj", envvars))]
     envs = {}
     imports = []
